@@ -191,6 +191,13 @@ def check_storage(ctx, rule="WIRE-PH"):
     i_ts, i_ecu = fidx(F, "dlt::StorageHeader", "timestamp"), fidx(F, "dlt::StorageHeader", "ecu_id")
     i_s, i_us = fidx(F, "dlt::DltTimeStamp", "seconds"), fidx(F, "dlt::DltTimeStamp", "microseconds")
     n_some = n_none = 0
+    finds = [e for e in eng.events if e[0] == "find"]
+    for e in finds:
+        _, needle, hay, off, ln_, which, fn = e
+        if not (hay == "input" and off == "0" and ln_ == "len(input)" and which == "first"):
+            R.violation(rule, STO + "|haystack", "the storage-header parser searches the pattern in %s[%s..+%s] (%s occurrence) instead of the first occurrence in its whole input: a pattern further on is reported as absent" % (hay, off, ln_, which), function=STO, file=fl, line=ln)
+    if not finds:
+        R.violation(rule, STO + "|no-search", "the storage-header parser reaches its exits without the pattern search", function=STO, kind="UNRECOGNISED-SHAPE")
     for st, rest, res in ok_exits(eng, outs):
         o = opt(eng, res)
         if o is None:
